@@ -29,7 +29,30 @@ def run(rep, tier):
                        "argument for each concrete segment count; oracle = the property's own index rule.")
     rep.bounds = {"segments": "1..4 (quick) / 1..6 (thorough)", "outside": "more than 6 segments (no induction claimed)"}
     run_e1(rep, specs(tier))
+    # E2: the same claim from the MIR for segment counts far beyond CBMC's reach (see e2/ctrl.py)
+    from props import ctrl_obl
+    from engine import E2
+    e = E2(rep, tier)
+    sizes = [1, 2, 3, 5, 8, 16, 17, 32, 33, 64, 65] + ([100, 128, 129, 200, 256, 257] if tier == "thorough" else [])
+    rep.bounds["segments_mir"] = sizes
+    ctrl_obl.c02_obligations(e, sizes, real=True)
+    ctrl_obl.c02_obligations(e, [1, 2, 3, 4], real=False)
+    e.finish()
 
 
 def replay(path):
+    if path.endswith(".json"):
+        return ctrl_replay(path)
     return replay_cmd(path)
+
+
+def ctrl_replay(path):
+    import json, sys, os
+    sys.path.insert(0, os.path.join(os.path.dirname(os.path.dirname(os.path.abspath(__file__))), "e2"))
+    from engine import Native
+    d = json.load(open(path))
+    op, ty, vals = d["request"]
+    nat = Native()
+    for prof in ("dev", "release"):
+        print("%s build: %s %s %r -> %r   (%s)" % (prof, op, ty, vals, nat.run([(op, ty, vals)], prof)[0], d.get("statement")))
+    return 1
